@@ -2511,7 +2511,7 @@ def pair9_boundary_inputs(P, R, L, rule="PAIR-9"):
             src = named_local(st["rv"]["ops"][0])
             if slot is None or src is None:
                 continue
-            exp = [a for a in ab if named_local(a.args[1]) == src and b.must_pass(bb, through_nodes=[a.bb])]
+            exp = [a for a in ab if named_local(a.args[1]) == src and a.bb != bb and b.must_pass(bb, through_nodes=[a.bb])]
             right = [a for a in exp if searched_level(a) == ("level", slot)]
             n_rep += 1
             R.check(rule, fn + "|replacement-set-expanded-with-its-own-level|slot=%s" % slot, bool(right), "%s:%s" % (b.file, st.get("line")),
@@ -4210,7 +4210,7 @@ def own10_cache_partitions(P, R, L, rule="OWN-10"):
         R.analysed(b)
         locks = [c for c in b.calls() if not b.is_cleanup(c.bb) and c.name in (RW_READ, RW_WRITE)]
         st = field_stores(b, "last_id_given")
-        ok = len(locks) == 1 and locks[0].name == RW_WRITE and bool(st) and all(b.must_pass(s[0], through_nodes=[locks[0].bb]) for s in st)
+        ok = len(locks) == 1 and locks[0].name == RW_WRITE and bool(st) and all(s[0] != locks[0].bb and b.must_pass(s[0], through_nodes=[locks[0].bb]) for s in st)
         R.check(rule, b.path + "|id-allocated-in-one-write-region", ok, where(b), "the id counter is incremented and read under a single write lock",
                 "lock acquisitions: %s" % [c.name.rsplit("::", 1)[1] for c in locks])
     keys = 0
@@ -5606,7 +5606,8 @@ def err4_status_chain(P, R, L, rule="ERR-4"):
         saves = [c.bb for c in st_.calls() if not st_.is_cleanup(c.bb) and
                  ((c.declared_name or "") == STATUS or (P.bodies.get(c.t.get("resolved") or "") is not None and c.t.get("local") and
                   any((x.declared_name or "") == STATUS for x in P.bodies[c.t["resolved"]].calls())))]
-        bad = [s[2].get("line") for s in stores if not st_.must_pass(s[0], through_nodes=saves)]
+        # a call terminates its block: a status read in the block of the store itself runs AFTER the store
+        bad = [s[2].get("line") for s in stores if not st_.must_pass(s[0], through_nodes=[x for x in saves if x != s[0]])]
         R.check(rule, p_ + "|status-kept-before-the-table-iterator-is-replaced", bool(saves) and not bad, where(st_),
                 "every assignment to current_table_iter is preceded by reading the status of the iterator it replaces",
                 "stores at line(s) %s without a preceding status read" % bad if bad else "%d stores, %d status reads" % (len(stores), len(saves)))
